@@ -660,6 +660,26 @@ func TestVerifReplay(t *testing.T) {
 		}
 		repl[virt] = f
 	}
+	// source instrumentation for the native build (scripted clock / timers): textual replacements
+	// applied to a copy of the package's current source files, listed in harness/<pkg>/INSTRUMENT.json
+	if ib, err := os.ReadFile(filepath.Join(vdir, "harness", pkg, "INSTRUMENT.json")); err == nil {
+		var rules map[string][][2]string
+		if json.Unmarshal(ib, &rules) == nil {
+			for file, subs := range rules {
+				src, err := os.ReadFile(filepath.Join(repo, pkg, file))
+				if err != nil {
+					continue
+				}
+				txt := string(src)
+				for _, sub := range subs {
+					txt = strings.ReplaceAll(txt, sub[0], sub[1])
+				}
+				inst := filepath.Join(dir, fmt.Sprintf("%s_%s_inst_%s", id, strings.ReplaceAll(pkg, "/", "_"), file))
+				os.WriteFile(inst, []byte(txt), 0o644)
+				repl[filepath.Join(repo, pkg, file)] = inst
+			}
+		}
+	}
 	ovb, _ := json.Marshal(map[string]interface{}{"Replace": repl})
 	ovFile := filepath.Join(dir, fmt.Sprintf("%s_%s_overlay.json", id, strings.ReplaceAll(pkg, "/", "_")))
 	os.WriteFile(ovFile, ovb, 0o644)
